@@ -136,6 +136,7 @@ type mapIter struct {
 	order []int
 	pos   int
 	keys  []Value // snapshot of keys
+	ents  []*mapEntry
 }
 
 type strIter struct {
